@@ -3,8 +3,9 @@
 # Independent confirmation of a seeded change in a fresh scratch worktree of /repo HEAD:
 #  demo passes on the clean tree, fails with the patch; named existing test programs build and pass with the patch.
 ID=$1; EXTRA=$2; TESTS=$3; DARGS=$4
-SRC=/tmp/seed/out/$ID; [ -d /verif/seeded/$ID ] && [ -f /verif/seeded/$ID/patch.diff ] && SRC=/verif/seeded/$ID
-W=/tmp/sc/$ID; rm -rf $W; mkdir -p /tmp/sc
+SUF=${ROUND:+-r$ROUND}
+SRC=/tmp/seed/out${ROUND:-}/$ID; [ -f /verif/seeded/$ID$SUF/patch.diff ] && SRC=/verif/seeded/$ID$SUF
+W=/tmp/sc/$ID$SUF; rm -rf $W; mkdir -p /tmp/sc
 git -C /repo worktree add -q --detach $W HEAD || exit 2
 cd $W
 g++ -std=c++17 -O1 -g -I. $SRC/demo.cpp $EXTRA -pthread -o demo_clean 2>&1 | grep -E "error" | head -3
